@@ -24,7 +24,7 @@ CHECKS = {
         text="Every byte string up to the bound over an alphabet containing every RESP structural byte is run through the real decoder and "
              "an independent three-valued recogniser: equal value, exact bytes consumed, position == bytes consumed, malformed => error. "
              "Plus exhaustive round trips of value trees, streams through several bufferings, all single-byte corruptions/truncations. "
-             "A bounded-exhaustive result: it speaks for all inputs inside the stated bounds, not beyond.",
+             "A bounded-exhaustive result: it speaks for all inputs inside the stated bounds, not beyond. Payload sizes: one binary bulk of 2^k-1, 2^k and 2^k+1 bytes for k=6..21 (thorough ..24), alone and as a command argument, through encoder, DecodeFromBytes and the streaming decoder.",
         note="trusts respref (engine/respref, ~250 lines, written from the protocol text); numbers longer than 3 digits are skipped in the byte enumeration to keep allocations small (counted)",
         rule="(a) every byte string up to bytes_max_len over the 12-symbol RESP alphabet (nodes of the word trie = states, "
              "one appended byte = transition), decoded by pkg/redis and by the independent recogniser respref; non-trivial = "
@@ -175,7 +175,7 @@ CHECKS = {
              "[wpos-cap, wpos] at some moment of the call; never a success for an offset outside the range during the whole call; blocked readers are woken "
              "by every write and by close (lost wake-up invariant on the shim's wait queue, deadlock detection); DataRange/IsValid/NewReader agree with the "
              "log. Sequentially all words up to length 5 (6) over writes of sizes up to 2cap+1, ReadAt/Seek at offsets around both ends of the data range, "
-             "reader operations and Close are checked after every step. Free-running -race pass of the same bodies.",
+             "reader operations and Close are checked after every step. Free-running -race pass of the same bodies. Two scenarios park three readers at the write position with fewer writes than readers and nobody closing: every one of them must be released.",
         note="the scheduler is sequentially consistent and switches only at Lock/Wait/thread end; the custom close error is not required to be the one reported (the statement only asks for an error); file backend reduced, thorough only",
         rule="execution = one schedule of one scenario or one sequential word; states = distinct observable histories per scenario plus distinct words; transitions = scheduling steps / operations; non-trivial = all",
         parts=[dict(pkg="./pkg/libs/io/backlog", harness=["backlog"], test="^TestVerif_C18$", race_test="^TestVerif_C18Race$", race=True, race_shards=4, shards=16,
@@ -281,7 +281,7 @@ CHECKS = {
              "2, 3, 8. The output is parsed back: the multiset of JSON lines must equal one line per string / list element with index / hash field / set member / zset "
              "member (score numerically equal), with db, type, expiry and base64 fields decoding to the exact bytes, plus one line per script, nothing else. For the "
              "worker hand-offs, decoderMain workers (1-3) run on channels the harness owns and every order of feeding entries and draining results is enumerated with "
-             "the workers run to quiescence in between.",
+             "the workers run to quiescence in between. One RDB holds a set whose decoded text exceeds the 8 MB writer buffer next to small keys: 2 and 3 workers, feed/drain orders within 1 (thorough 2) deviations.",
         note="the internal channel hand-offs of decode() itself are not interceptable without rewriting the function: they are covered by the owned-channel exploration of the worker function and by running the whole pipeline at several parallel degrees (stated limitation); streams and NaN scores are not decodable by design",
         rule="case = (file, parallel) or (entries, workers, feed/drain order); non-trivial = all (each compares the parsed output with the expected multiset)",
         parts=[dict(pkg="./redis-shake", harness=["run"], test="^TestVerif_C17$", shards=16, gomaxprocs=4, budget=dict(quick=75, thorough=600))],
